@@ -80,6 +80,7 @@ class Gen:
       "eq_many": p(0.15),  # more equalities than coordinates (size relations such as neq > nq)
       "pile": p(0.08),  # a cluster of small free bodies: many broadphase candidates, many contacts, many trees
       "tiny": p(0.15),  # one shallow tree: nq, nv small relative to nu, na, neq, nsensordata, nuserdata
+      "cameras": p(0.25),  # body-mounted cameras and lights in every tracking mode (their frames are outputs of kinematics)
       "welded_child": p(0.25),  # some child bodies have no joint of their own (rigidly attached to their parent: bodies != joints != dofs)
     }
     if features:
@@ -186,6 +187,14 @@ class Gen:
     sname = f"s{b}"
     s += f'{ind}  <site name="{sname}" pos="{_f([self.u(-0.05, 0.05), self.u(-0.05, 0.05), self.u(0.0, 0.1)])}" size="0.01"/>\n'
     self.sites.append((sname, b))
+    if self.ft.get("cameras") and r.random() < 0.4:
+      mode = self.ch(["fixed", "track", "trackcom", "targetbody", "targetbodycom"])
+      tgt = f' target="b{0 if b else 1}"' if mode.startswith("target") and (b or self.ft.get("_multi")) else ""
+      if mode.startswith("target") and not tgt:
+        mode = "track"
+      s += f'{ind}  <camera name="c{b}" mode="{mode}"{tgt} pos="{_f([self.u(-0.3, 0.3), self.u(-0.3, 0.3), self.u(0.1, 0.5)])}" euler="{_f([self.u(-40, 40), self.u(-40, 40), self.u(-90, 90)])}"/>\n'
+      if r.random() < 0.5:
+        s += f'{ind}  <light name="l{b}" mode="{mode}"{tgt} pos="0 0 0.5" dir="0 0 -1"/>\n'
     maxdepth = 1 if self.ft["tiny"] else {"s": 2, "m": 3, "l": 4}[self.size]
     if depth < maxdepth:
       nchild = int(r.choice([0, 1, 1, 2])) if depth > 0 else int(r.choice([0, 1, 1, 2]))
@@ -264,6 +273,8 @@ class Gen:
           a += f' frictionloss="{_f(self.u(0.01, 0.3))}"'
         if r.random() < 0.4:
           a += f' damping="{_f(self.u(0.01, 0.5))}" stiffness="{_f(self.u(0, 5))}"'
+        if r.random() < 0.3:
+          a += f' armature="{_f(self.u(0.005, 0.1))}"'
         ten += f"    <fixed {a}>\n" + "".join(f'      <joint joint="{j[0]}" coef="{_f(self.u(-1.5, 1.5))}"/>\n' for j in js) + "    </fixed>\n"
         self.tendons.append(name)
     if ft["tendon_spatial"] and len(self.sites) >= 2:
@@ -275,6 +286,8 @@ class Gen:
           a += f' limited="true" range="0 {_f(self.u(0.2, 0.8))}"'
         if r.random() < 0.4:
           a += f' damping="{_f(self.u(0.01, 0.5))}" stiffness="{_f(self.u(0, 5))}"'
+        if r.random() < 0.3:
+          a += f' armature="{_f(self.u(0.005, 0.1))}"'
         ten += f"    <spatial {a}>\n" + "".join(f'      <site site="{self.sites[i][0]}"/>\n' for i in idx) + "    </spatial>\n"
         self.tendons.append(name)
 
@@ -551,4 +564,8 @@ def load_mjm(spec):
         mjm.opt.solver = SOLVERS["newton"]  # put_model: sleeping requires the Newton solver
     else:
       setattr(mjm.opt, k, v)
+  if o.get("sleep") and int(mjm.opt.iterations) > 40:
+    # with sleeping enabled solve() takes the compacted path, which on the CPU backend runs every one of opt.iterations iterations
+    # (no early exit): 100 iterations cost ~1500 launches per step. Newton needs far fewer; unconverged steps are guarded by the bit.
+    mjm.opt.iterations = 40
   return mjm
